@@ -1026,20 +1026,22 @@ class ParserField:
         # trans = context.transformer
 
         if self.discriminator_map and value is not None:
+            given = value
             if not isinstance(value, Mapping):
                 try:
                     value = context.transformer.to_dict(value)
                 except Exception as e:
-                    context.handle_error(
+                    return self.handle_value_error(
                         exc.ParseError(
                             item=self.name,
                             type=dict,
                             value=value,
                             field=self,
                             origin_exc=e,
-                        )
+                        ),
+                        value=given,
+                        context=context,
                     )
-                    return unprovided
 
             discriminator = value.get(self.discriminator)
             try:
@@ -1051,7 +1053,7 @@ class ParserField:
                 type = self.discriminator_map[discriminator]
                 # directly assign type instead parse it in a Logical context
             else:
-                context.handle_error(
+                return self.handle_value_error(
                     exc.DiscriminatorMismatchError(
                         discriminator=self.discriminator,
                         discriminator_value=discriminator,
@@ -1059,9 +1061,10 @@ class ParserField:
                         value=value,
                         item=self.name,
                         type=self.type,
-                    )
+                    ),
+                    value=given,
+                    context=context,
                 )
-                return unprovided
 
         if not type:
             # type is None, not type(None), means the exact same as Any / Rule
@@ -1078,24 +1081,28 @@ class ParserField:
                     field=self,
                     origin_exc=e,
                 )
-                error_option = self.get_on_error(context.options)
-                if error_option == context.options.EXCLUDE:
-                    if self.is_required(context.options):
-                        # required field cannot be excluded
-                        context.handle_error(error)
-                    else:
-                        context.collect_waring(error.formatted_message)
-                    # the field counts as not given (e.g. it does not demand its dependencies)
-                    context.excluded_fields.add(self.name)
-                    # return default if provided
-                    # return unprovided if no default is set
-                    return self.get_default(options=context.options, defer=False)
-                elif error_option == context.options.PRESERVE:
-                    context.collect_waring(error.formatted_message)
-                    return value
-                else:
-                    context.handle_error(error)
-                return unprovided
+                return self.handle_value_error(error, value=value, context=context)
+
+    def handle_value_error(self, error: Exception, value, context: RuntimeContext):
+        # the value given for this field is invalid: apply the field's (or the options') policy
+        error_option = self.get_on_error(context.options)
+        if error_option == context.options.EXCLUDE:
+            if self.is_required(context.options):
+                # required field cannot be excluded
+                context.handle_error(error)
+            else:
+                context.collect_waring(error.formatted_message)
+            # the field counts as not given (e.g. it does not demand its dependencies)
+            context.excluded_fields.add(self.name)
+            # return default if provided
+            # return unprovided if no default is set
+            return self.get_default(options=context.options, defer=False)
+        elif error_option == context.options.PRESERVE:
+            context.collect_waring(error.formatted_message)
+            return value
+        else:
+            context.handle_error(error)
+        return unprovided
 
     @classmethod
     def process_annotate_meta(cls, m, **kwargs):
